@@ -266,6 +266,9 @@ pub enum SOp {
     PureT { tf: f64, guess: Option<usize> },
     /// pure VLE at p = p_sat(tf*Tc) with an earlier result as guess
     PureP { tf: f64, guess: Option<usize> },
+    /// pure VLE at T (or at p_sat(tf*Tc) if `at_p`) guided by the most recent result of the
+    /// session: the continuation pattern of the phase-diagram drivers, in either direction
+    PureChain { tf: f64, at_p: bool },
     /// pure VLE at T with an un-converged two-phase guess built by PhaseEquilibrium::new_npt at
     /// the requested temperature and a guessed pressure pf * p_sat
     PureTNpt { tf: f64, pf: f64 },
@@ -542,6 +545,12 @@ fn session_pure_op(ctx: &mut Ctx, sc: &Session, i: usize, op: &SOp, pool_v: &mut
                     }
                 }
             }
+        }
+        SOp::PureChain { tf, at_p } => {
+            let last = if pool_v.is_empty() { None } else { Some(pool_v.len() - 1) };
+            let op2 = if *at_p { SOp::PureP { tf: *tf, guess: last } } else { SOp::PureT { tf: *tf, guess: last } };
+            ctx.out.count("probe.pure_continuation_step", 1);
+            session_pure_op(ctx, sc, i, &op2, pool_v, opts);
         }
         SOp::PureTNpt { tf, pf } => {
             let t = tf * sys.tc;
@@ -1258,6 +1267,24 @@ fn gen_session(rng: &mut Rng, tier: Tier, no_faults: bool) -> Session {
     };
     let n = rng.range(2, maxops);
     let mut ops = Vec::new();
+    // continuation pattern (pure systems): a chain of solves each guided by the previous one,
+    // descending or ascending in temperature with steps up to 0.25 T_c
+    if !binary && rng.chance(0.35) {
+        let down = rng.chance(0.6);
+        let mut tf = if down { rng.uniform(0.85, 0.98) } else { rng.uniform(0.45, 0.6) };
+        let at_p = rng.chance(0.25);
+        ops.push(SOp::PureT { tf, guess: None });
+        for _ in 1..n {
+            let step = rng.uniform(0.01, 0.25);
+            tf = q9(if down { tf - step } else { tf + step });
+            if !(0.45..=0.98).contains(&tf) {
+                break;
+            }
+            ops.push(SOp::PureChain { tf, at_p });
+        }
+        let faults = Vec::new();
+        return Session { binary, sys, ops, faults, max_iter: None };
+    }
     for _ in 0..n {
         if binary {
             let tf = rng.uniform(0.65, 0.95);
